@@ -8,7 +8,7 @@ def sh(cmd, **kw): return subprocess.run(cmd, shell=True, capture_output=True, t
 assert sh("git -C /repo status --porcelain").stdout.strip() == "", "/repo dirty"
 for sid, d in sorted(DESC.items()):
     prop, x = sid.split("/")
-    base = {"A": "/tmp/seedout", "B": "/tmp/seedout", "C": "/tmp/seedout2", "D": "/tmp/seedout2", "E": "/tmp/seedout3", "F": "/tmp/seedout3", "G": "/tmp/seedout4", "H": "/tmp/seedout4", "I": "/tmp/seedout5", "J": "/tmp/seedout5", "K": "/tmp/seedout6", "L": "/tmp/seedout6", "M": "/tmp/seedout7", "N": "/tmp/seedout7", "O": "/tmp/seedout8", "P": "/tmp/seedout8", "S": "/tmp/seedout10"}.get(x, "/tmp/seedout9")
+    base = {"A": "/tmp/seedout", "B": "/tmp/seedout", "C": "/tmp/seedout2", "D": "/tmp/seedout2", "E": "/tmp/seedout3", "F": "/tmp/seedout3", "G": "/tmp/seedout4", "H": "/tmp/seedout4", "I": "/tmp/seedout5", "J": "/tmp/seedout5", "K": "/tmp/seedout6", "L": "/tmp/seedout6", "M": "/tmp/seedout7", "N": "/tmp/seedout7", "O": "/tmp/seedout8", "P": "/tmp/seedout8", "S": "/tmp/seedout10", "T": "/tmp/seedout11"}.get(x, "/tmp/seedout9")
     src = f"{base}/{prop}/{x}"
     dst = os.path.join(ROOT, "seeded", f"{prop}-{x}")
     vlog = f"{base}/verify/{prop}_{x}.log"
